@@ -321,6 +321,8 @@ def run(chk, b, tier):
     # the counts a caller-supplied meter receives (library use) while its callbacks pause the calling goroutines
     from ._camp import api_delay_stage
     api_delay_stage(chk, b, [], "C18", 4 if tier == "quick" else 80, phase_totals=True)
+    from ._camp import generic_fault_sweep
+    generic_fault_sweep(chk, b, "C18", [['--progress', '-v'], ['--progress', '--json', '--branches']])
     chk.cov["rule"] = ("API (-race build): the real meter.NewProgressMeter with a recording writer; 3-40 phases with unique labels, "
                        "seeded increment counts and micro-delays, zero/tiny gaps between Done and the next Start, periods 1us-5ms, "
                        "GOMAXPROCS 1-16, settling wait of 25 periods. Monitors: each write is one complete frame; counts never "
